@@ -39,6 +39,10 @@ DEFAULT_CFG = {
     'cycles': (1, 12),
     'rom_aw_max': 5,
     'two_write_ports': 0.3,
+    'dup_prob': 0.0,           # re-emit an existing net (same or swapped args): CSE fodder
+    'dead_frac': 0.0,          # fraction of unread wires left without an Output (dead logic)
+    'const_reg_prob': 0.0,     # registers whose next value is a constant (directly or chained)
+    'const_bias': 0.0,         # extra probability that an operand is a constant
 }
 
 
@@ -71,6 +75,10 @@ def rand_val(rng, width):
     if r < 0.66:
         return (rng.getrandbits(width) | rng.getrandbits(width)) & m
     return rng.getrandbits(width)
+
+
+def copy_param(p):
+    return list(p) if isinstance(p, list) else p
 
 
 class _G(object):
@@ -164,6 +172,11 @@ class _G(object):
     def want(self, width, sync=False, exact_prob=0.6):
         """Name of a wire of exactly this width (an adaptor net is created if needed)."""
         rng = self.rng
+        if self.cfg['const_bias'] and rng.random() < self.cfg['const_bias']:
+            n = self.name('c')
+            v = rng.choice([0, mask(width), rand_val(rng, width)])
+            self.add_wire('C', width, n, val=v, sync=True)
+            return n
         cands = [a for a in self.avail if a[1] == width and (a[2] or not sync)]
         if cands and rng.random() < exact_prob:
             return rng.choice(cands)[0]
@@ -261,6 +274,25 @@ class _G(object):
             idx = self.sel_indices(q[1], ln)
             self.add_net('s', idx, [q[0]], [self.dest(ln, sync=q[2])])
 
+    def dup_net(self):
+        rng = self.rng
+        cands = [n for n in self.nets if n['op'] in COMB_OPS + 'm' and n['d']]
+        if not cands:
+            return
+        n = rng.choice(cands)
+        args = list(n['a'])
+        if len(args) == 2 and rng.random() < 0.5:
+            args.reverse()
+        elif n['op'] == 'x' and rng.random() < 0.3:
+            args[1], args[2] = args[2], args[1]
+        wd = {w['n']: w['w'] for w in self.wires}
+        dw = wd[n['d'][0]]
+        if self.trunc and dw > 1 and n['op'] not in '<>=m' and rng.random() < 0.3:
+            dw = rng.randint(1, dw)
+        d = self.name('t')
+        self.add_wire('W', dw, d, sync=self.sync_of(n['d'][0]) if n['op'] in 'wcs' else False)
+        self.add_net(n['op'], copy_param(n['p']), args, [d])
+
     # -- memories -----------------------------------------------------------------------
     def add_mem(self, rom):
         rng = self.rng
@@ -350,6 +382,8 @@ def gen_script(rng, cfg):
     for i in range(n):
         if mis and rng.random() < 0.2:
             g.read_port(rng.choice(mis))
+        elif cfg['dup_prob'] and g.nets and rng.random() < cfg['dup_prob']:
+            g.dup_net()
         else:
             g.comb_net(rng.choice(fav if rng.random() < 0.8 else ops))
     for mi in mis:
@@ -360,6 +394,16 @@ def gen_script(rng, cfg):
         elif not any(nt['op'] == 'm' and nt['p'] == mi for nt in g.nets):
             g.read_port(mi)
     for name, w in regs:
+        if cfg['const_reg_prob'] and rng.random() < cfg['const_reg_prob']:
+            cs = [a for a in g.avail if a[1] == w and
+                  any(x['n'] == a[0] and x['k'] == 'C' for x in g.wires)]
+            if cs and rng.random() < 0.7:
+                src = rng.choice(cs)[0]
+            else:
+                src = g.name('c')
+                g.add_wire('C', w, src, val=rand_val(rng, w), sync=True)
+            g.add_net('r', None, [src], [name])
+            continue
         if g.trunc and rng.random() < 0.3:
             src = rng.choice(g.avail)
             if src[1] >= w:
@@ -371,6 +415,8 @@ def gen_script(rng, cfg):
     made = 0
     for name, w, _s in list(g.avail):
         unread = g.readers.get(name, 0) == 0
+        if unread and kinds[name] == 'W' and cfg['dead_frac'] and rng.random() < cfg['dead_frac']:
+            continue
         if kinds[name] in 'IC' and not (unread and rng.random() < 0.5):
             if not (rng.random() < cfg['probe_frac'] * 0.3):
                 continue
